@@ -531,7 +531,9 @@ def run_dor(inp):
         from geometry_tools import hyperbolic
         hr = hyperbolic.HyperbolicRepresentation(rep)
         got, want = np.asarray(hr[w].matrix).T, A
-    b = 10 * H.norm_bound(rep, inp["w"]) ** 2 * (1 + float(np.abs(C).max()) ** 2)
+    # every formula involves rho(w) and rho(w)^-1: bound by the norms of the letters and of their inverses
+    nb = H.norm_bound(rep, inp["w"]) * H.norm_bound(rep, [H.swapcase(x) for x in inp["w"]])
+    b = 10 * nb ** 2 * (1 + float(np.abs(C).max()) ** 2)
     if got.shape != want.shape:
         return {"err": float("inf"), "what": "shape"}
     return {"err": float(np.max(np.abs(got - want))) / (1 + b) if got.size else 0.0}
